@@ -3,6 +3,7 @@ CONSTANTS
   W = 1
   MaxOps = 3
   MaxParOps = 2
+  MaxLadder = 5
   MaxUnOps = 1
   Tuples <- MCTuples
 INVARIANTS Agreement DevIsNamed Bounded
